@@ -1,0 +1,37 @@
+//go:build verif
+// +build verif
+
+package clientsets
+
+import (
+	"k8s.io/client-go/rest"
+)
+
+// Verification hooks (build tag "verif"): thin exports only, no behaviour.
+
+// VerifNewClientSets builds a clientSets like newClientSets does, but with the
+// given lookup function and without starting the background loops.
+func VerifNewClientSets(restConfig *rest.Config, runId string, lookup LookupFunc) ClientSets {
+	return &clientSets{
+		service:    "verif",
+		lookupFunc: lookup,
+		restConfig: restConfig,
+		runId:      runId,
+		insecure:   len(restConfig.TLSClientConfig.CAData) == 0,
+	}
+}
+
+// VerifSync runs one round of the periodic server-info sync.
+func VerifSync(c ClientSets) { c.(*clientSets).sync() }
+
+// VerifHeartbeat runs one round of the periodic heartbeat.
+func VerifHeartbeat(c ClientSets) { c.(*clientSets).clientHeart() }
+
+// VerifLeader returns the leader the client set has on record for a shard.
+func VerifLeader(c ClientSets, shard int) (string, bool) {
+	v, ok := c.(*clientSets).leaderEndpoints.Load(shard)
+	if !ok {
+		return "", false
+	}
+	return v.(string), true
+}
